@@ -47,6 +47,15 @@ theorem f32OfInt_small {x : Int} (h : x.natAbs < 2 ^ 24) : f32OfInt x = x := by
   rw [roundNat24_small h]
   split <;> omega
 
+theorem roundNat53_small {m : Nat} (h : m < 2 ^ 53) : roundNat53 m = m := by
+  unfold roundNat53
+  rw [if_pos h]
+
+theorem f64OfInt_small {x : Int} (h : x.natAbs < 2 ^ 53) : f64OfInt x = x := by
+  unfold f64OfInt
+  rw [roundNat53_small h]
+  omega
+
 theorem prepScores_length (s : ScoreArr) : (prepScores s).length = s.len := by
   cases s <;> simp [prepScores, ScoreArr.len]
 
